@@ -69,7 +69,9 @@ class MorphInterp(ResultInterp):
         if isinstance(base, MaskT):
             if attr == "ndim":
                 return Term("ndim", of=base.name)
-            if attr in ("shape", "dtype"):
+            if attr == "shape":
+                return Sym("SHAPE" + ("[cropped]" if "crop" in base.ops else ""))  # the two masks of a pair have one shape
+            if attr == "dtype":
                 return Sym(f"{base.name}.{attr}")
             return _TM(base, attr)
         if isinstance(base, Term):
@@ -94,6 +96,8 @@ class MorphInterp(ResultInterp):
                     return MaskT(o.name, o.ops) if isb else MaskT(o.name, o.ops + ("astype(?)",))
                 if name == "copy":
                     return o
+                if name == "any" and not args and not kwargs:
+                    return True  # the masks of the property are not empty
                 if name in SHAPE_OPS:
                     return MaskT(o.name, o.ops + (name,))
                 return Unknown(f"mask.{name}")
@@ -109,6 +113,14 @@ class MorphInterp(ResultInterp):
         short = name.split(".")[-1]
         if name in ("numpy.atleast_1d", "numpy.asarray", "numpy.ascontiguousarray", "numpy.array") and a and isinstance(a[0], MaskT):
             return a[0]
+        if name in ("numpy.any",) and len(a) == 1 and isinstance(a[0], MaskT) and not kwargs:
+            return True
+        if name == "numpy.array_equal" and len(a) == 2 and all(isinstance(x, MaskT) for x in a) and {a[0].name, a[1].name} == {"REF", "PRED"}:
+            return self.root.__dict__.setdefault("_identical", Unknown("identical"))
+        if self.prog.is_anchor(name, "utils.numpy_utils:_get_bbox_nd") and a and isinstance(a[0], Term) and a[0].kind == "or":
+            return Term("bbox", of=a[0])
+        if name in ("min", "builtin:min") and len(a) == 1 and isinstance(a[0], Term) and a[0].kind == "extent":
+            return Term("minextent", of=a[0].kw["of"], off=a[0].kw["off"])
         if name.startswith("numpy.") and short in SHAPE_OPS and a and isinstance(a[0], MaskT):
             return MaskT(a[0].name, a[0].ops + (short,))
         if short == "generate_binary_structure":
@@ -143,9 +155,24 @@ class MorphInterp(ResultInterp):
             return args[0]
         if name == "len" and args and isinstance(args[0], Term) and args[0].kind in ("at", "border"):
             return Term("size>0", of=args[0])
+        if name == "min" and len(args) == 1 and isinstance(args[0], Term) and args[0].kind == "extent":
+            return Term("minextent", of=args[0].kw["of"], off=args[0].kw["off"])
         return super().call_builtin(name, args, kwargs, node)
 
+    def call_func(self, f, args, kwargs, node, self_obj=None):
+        # a function proved (c10.verified_extent_functions) to return the per-axis extents of the non-zero region
+        from .c10 import axis_span_functions
+
+        spans = axis_span_functions(self.prog)
+        if self_obj is None and len(args) + len(kwargs) == 1 and f.qual in spans:
+            m = (list(args) + list(kwargs.values()))[0]
+            if isinstance(m, MaskT):
+                return Term("extent", of=m, off=spans[f.qual])  # per axis: last - first + off (off = 1: the extent in voxels)
+        return super().call_func(f, args, kwargs, node, self_obj=self_obj)
+
     def binop_hook(self, op, l, r, node):
+        if isinstance(op, ast.BitOr) and isinstance(l, MaskT) and isinstance(r, MaskT):
+            return Term("or", l=l, r=r)
         if isinstance(op, ast.BitXor):
             for m, e in ((l, r), (r, l)):
                 if isinstance(m, MaskT) and isinstance(e, Term) and e.kind == "erosion":
@@ -166,13 +193,21 @@ class MorphInterp(ResultInterp):
         return super().ev_UnaryOp(e)
 
     def subscript_hook(self, base, idx, node):
-        if isinstance(base, Term) and base.kind == "edt" and isinstance(idx, Term):
+        if isinstance(base, Term) and base.kind == "edt" and isinstance(idx, (Term, MaskT)):
             return Term("at", dt=base, where=idx)
+        if isinstance(base, MaskT) and isinstance(idx, Term) and idx.kind == "bbox":
+            u = idx.kw["of"]
+            if {u.kw["l"].name, u.kw["r"].name} == {"REF", "PRED"} and not u.kw["l"].ops and not u.kw["r"].ops and not base.ops:
+                # cropped to the bounding box of the union of both masks (R10.2: the box holds every voxel of both)
+                return MaskT(base.name, ("crop",))
         return super().subscript_hook(base, idx, node)
 
     def compare_hook(self, op, l, r, node):
         if isinstance(l, Term) and l.kind == "ndim":
             return Unknown("ndim compare")
+        if isinstance(l, Term) and l.kind == "minextent" and isinstance(r, int) and not isinstance(r, bool) and isinstance(op, (ast.LtE, ast.Lt)):
+            k = (r if isinstance(op, ast.LtE) else r - 1) + 1 - l.kw["off"]  # the bound in voxels of thickness
+            return self.root.__dict__.setdefault("_flat", {}).setdefault((l.kw["of"], k), Unknown(f"flat:{l.kw['of'].name}:{k}"))
         if isinstance(l, Term) and l.kind == "size>0" and isinstance(r, int) and not isinstance(r, bool) and r <= 0:
             return isinstance(op, (ast.Gt, ast.GtE, ast.NotEq)) if r == 0 else isinstance(op, (ast.Gt, ast.GtE, ast.NotEq))
         if isinstance(r, Term) and r.kind == "size>0" and isinstance(l, int) and not isinstance(l, bool) and l == 0:
@@ -211,26 +246,52 @@ def check_chain(ctx: Ctx):
 
     def make(prefix):
         it = MorphInterp(prog, f, dict(args), prefix=prefix)
-        it.root.no_inline = {edt.qual}
+        it.root.no_inline = {edt.qual, prog.func("utils.numpy_utils:_get_bbox_nd").qual}
         its.append(it)
         return it
 
-    outs = enumerate_paths(make, max_paths=32)
-    # voxelspacing is None on the analysed path; other splits are unexpected
-    outs = [o for o in outs if o.kind == "return"]
-    if len(outs) != 1 or outs[0].decisions:
-        ctx.undecided("R07.1", f, f.node, f"{f.qual}", f"ASSD chain not evaluable without splitting ({len(outs)} returning paths; {[norm(d[0]) for o in outs for d in o.decisions if isinstance(d[0], ast.AST)][:3]})")
-        return
-    res = outs[0].value
+    outs = enumerate_paths(make, max_paths=64)
+    # voxelspacing is None on the analysed path.  Every returning path is an input class (identical masks,
+    # flat objects, ...) and must be right on its own.
+    n_paths = 0
+    for out in outs:
+        if out.kind != "return":
+            continue
+        tags = [(str(getattr(v, "tag", "")), d) for _, v, d in out.decisions]
+        other = [t for t, d in tags if not (t == "identical" or t.startswith("flat:"))]
+        if other:
+            ctx.undecided("R07.1", f, f.node, f"{f.qual}", f"ASSD chain splits on an unmodelled condition ({[norm(d[0]) for d in out.decisions if isinstance(d[0], ast.AST)][:3]})")
+            return
+        n_paths += 1
+        suffix = "[" + "; ".join(f"{t}={d}" for t, d in tags) + "]" if tags else ""
+        if ("identical", True) in tags:
+            ctx.decide("R07.1", f, out.node, f"{f.qual}:identical{suffix}", "identical masks have identical borders: the distance is 0", out.value in (0, 0.0), {"got": repr(out.value)[:80]})
+            continue
+        _judge_chain(ctx, prog, f, out.value, suffix, {t: d for t, d in tags})
+    if n_paths == 0:
+        ctx.undecided("R07.1", f, f.node, f"{f.qual}", "no returning path of the ASSD chain")
+
+
+def _judge_chain(ctx, prog, f, res, suffix, tags):
     parts = _flatten_mean(res)
     if parts is None or len(parts) != 2:
         wrong = (isinstance(res, Term) and res.kind in ("add", "max", "min", "sum", "at", "mean")) or (isinstance(res, Tagged) and res.name in ("numpy.max", "numpy.min", "numpy.sum", "numpy.amax", "numpy.amin", "numpy.median", "max", "min", "sum"))
-        ctx.decide("R07.1", f, f.node, f"{f.qual}:mean", "ASSD is the arithmetic mean of two directed terms", False if wrong else None, {"got": repr(res)[:200]})
+        ctx.decide("R07.1", f, f.node, f"{f.qual}:mean{suffix}", "ASSD is the arithmetic mean of two directed terms", False if wrong else None, {"got": repr(res)[:200]})
         return
-    ctx.ok("R07.1", f, f.node, f"{f.qual}:mean", "ASSD is the arithmetic mean of two directed terms", None)
+    ctx.ok("R07.1", f, f.node, f"{f.qual}:mean{suffix}", "ASSD is the arithmetic mean of two directed terms", None)
     orient = []
+
+    def is_border(b):
+        """a border operand: mask XOR erosion(mask), or - where this path is guarded by 'the mask is at most two
+        voxels thick along some axis' (extent function verified, c10) - the mask itself: it is its own border"""
+        if isinstance(b, Term) and b.kind == "border":
+            return "border"
+        if isinstance(b, MaskT) and any(t.startswith(f"flat:{b.name}:") and d and int(t.rsplit(":", 1)[1]) <= 2 for t, d in tags.items()):
+            return "flat"
+        return None
+
     for k, part in enumerate(parts):
-        construct = f"{f.qual}:directed#{k}"
+        construct = f"{f.qual}:directed#{k}{suffix}"
         if not (isinstance(part, Term) and part.kind in ("mean", "sum", "max", "min", "std")):
             ctx.undecided("R07.3", f, f.node, construct, f"directed term not recognised: {part!r}"[:200])
             continue
@@ -241,16 +302,24 @@ def check_chain(ctx: Ctx):
             continue
         dt, where = at.kw["dt"], at.kw["where"]
         src = dt.kw.get("of")
-        ok_inv = isinstance(src, Term) and src.kind == "not" and isinstance(src.kw["of"], Term) and src.kw["of"].kind == "border"
-        if not ok_inv or not (isinstance(where, Term) and where.kind == "border"):
+        ok_inv = isinstance(src, Term) and src.kind == "not" and is_border(src.kw["of"]) is not None
+        if not ok_inv or is_border(where) is None:
             ctx.decide("R07.3", f, f.node, construct + ":dt", "distances are read from the transform of the COMPLEMENT of a border, at the positions of a border", False, {"dt_of": repr(src)[:120], "at": repr(where)[:120]})
             continue
         b_ref, b_pred = src.kw["of"], where
-        orient.append((b_ref.kw["mask"].name, b_pred.kw["mask"].name))
+        mask_of = lambda b: b.kw["mask"] if isinstance(b, Term) else b
+        orient.append((mask_of(b_ref).name, mask_of(b_pred).name))
+        # both masks untouched, or both cropped to the bounding box of their union (the box holds every voxel of
+        # both, voxels on its rim had background or the array edge beyond it before: borders and distances stay)
+        ops_ok = mask_of(b_ref).ops == mask_of(b_pred).ops and mask_of(b_ref).ops in ((), ("crop",))
         for role, b in (("target", b_ref), ("source", b_pred)):
-            m, e = b.kw["mask"], b.kw["erosion"]
+            m = mask_of(b)
             c2 = construct + f":{role}-border({m.name})"
-            ctx.decide("R07.2", f, f.node, c2 + ":mask", "the border is taken of the mask itself (no squeeze/reshape/shift before; array geometry decides which voxels have an out-of-array neighbour)", not m.ops and e.kw["mask"] == m, {"mask": repr(m), "eroded": repr(e.kw["mask"])})
+            if is_border(b) == "flat":
+                ctx.decide("R07.2", f, f.node, c2 + ":mask", "the border is taken of the mask itself; a mask at most two voxels thick along an axis is its own border", ops_ok, {"mask": repr(m)})
+                continue
+            e = b.kw["erosion"]
+            ctx.decide("R07.2", f, f.node, c2 + ":mask", "the border is taken of the mask itself (no squeeze/reshape/shift before; array geometry decides which voxels have an out-of-array neighbour)", ops_ok and e.kw["mask"] == m, {"mask": repr(m), "eroded": repr(e.kw["mask"])})
             ctx.decide("R07.2", f, f.node, c2 + ":erosion", "erosion is scipy.ndimage.binary_erosion with one iteration", e.kw["lib"].endswith("binary_erosion") and e.kw["lib"].startswith("scipy") and e.kw["iterations"] == 1 and not e.kw["extra"], {"lib": e.kw["lib"], "iterations": repr(e.kw["iterations"]), "extra": e.kw["extra"]})
             ctx.decide("R07.2", f, f.node, c2 + ":outside", "voxels outside the array count as background (border_value 0): foreground on the array edge is border", e.kw["border_value"] in (0, False), {"border_value": repr(e.kw["border_value"])})
             st = e.kw["structure"]
@@ -258,7 +327,7 @@ def check_chain(ctx: Ctx):
             ctx.decide("R07.2", f, f.node, c2 + ":structure", "the structuring element is the face-neighbour cross of the mask's dimensionality (connectivity 1)", ok_st, {"structure": repr(st)[:120]})
         ctx.decide("R07.3", f, f.node, construct + ":edt", "the distance transform is the package's Euclidean transform of the complemented border", "distance_transform_edt" in str(dt.kw.get("lib", "")) or prog.is_anchor(str(dt.kw.get("lib", "")), "metrics.assd:_distance_transform_edt"), {"lib": dt.kw.get("lib")}, nontrivial=False)
     want = sorted([("REF", "PRED"), ("PRED", "REF")])
-    ctx.decide("R07.1", f, f.node, f"{f.qual}:orientations", "the two directed terms are prediction->reference and reference->prediction (each orientation exactly once)", sorted(orient) == want, {"got (target border, source border)": sorted(orient)})
+    ctx.decide("R07.1", f, f.node, f"{f.qual}:orientations{suffix}", "the two directed terms are prediction->reference and reference->prediction (each orientation exactly once)", sorted(orient) == want, {"got (target border, source border)": sorted(orient)})
 
 
 def check_no_wraparound(ctx: Ctx):
